@@ -11,6 +11,7 @@ import (
 	"github.com/cloudwego/gopkg/bufiox"
 
 	"verif/mc"
+	"verif/vdump"
 )
 
 // writerSys drives a real bufiox.DefaultWriter / BytesWriter in lock-step with the
@@ -145,9 +146,11 @@ func (s *writerSys) warmOps() []int {
 }
 
 func (s *writerSys) Key() string {
-	st := s.dw.VerifState()
 	var b strings.Builder
-	fmt.Fprintf(&b, "%d/%d/%v|%v|%v/%d|", st.Len, st.Cap, st.Pending, st.Err != nil, st.Stats, st.StatIdx)
+	// every private field of the writer, read by reflection (no field is named): extents of its buffers, parked
+	// buffers, sticky error, size statistics, flags
+	b.WriteString(vdump.Key(s.dw, vdump.Opt{}))
+	b.WriteString("|")
 	if s.sink != nil {
 		fmt.Fprintf(&b, "c%d|", s.sink.Calls)
 	}
